@@ -384,6 +384,12 @@ def _r1_rest(ctx):
             if b == k.stack:
                 ty.env[a] = "I"
         anti, n = _type_function(ctx, k.fi, k.loop.body, ty, "affine", k.fi.name)
+        from .c02 import narrow_declarations
+        for nm_, ty_ in narrow_declarations(k):
+            ctx.violated(k.fi, k.fi.node, "%s: the local %s is declared `cdef %s`: turning-point values are rounded to single precision "
+                         "before they are compared, so the closing decisions change when the signal is shifted by a constant or "
+                         "scaled (the 7 significant digits kept depend on the level)" % (k.fi.name, nm_.split(".")[-1], ty_),
+                         text="narrow declaration %s" % nm_.split(".")[-1])
         # outputs covariant
         for s in walk_stmts(k.loop.body):
             if isinstance(s, ast.Assign) and isinstance(s.targets[0], ast.Subscript) and isinstance(s.targets[0].value, ast.Name) \
